@@ -25,3 +25,63 @@ Example C17_nonvacuous :
   let '(sh, ts) := run_sched init_shared (init_threads [7; 8; 9]) [2; 0; 1; 1; 2; 0] in
   sh_next sh = 1 /\ ts = [(7, TDone (7, 0)); (8, TDone (8, 0)); (9, TDone (9, 0))].
 Proof. vm_compute. split; reflexivity. Qed.
+
+(* ---- sibling routes: per-route configuration is never shared -------------------------------------- *)
+From Sebuf Require Import Headers.
+
+Theorem C17_routes_config_isolated : forall svc var methods m hs rq bv bok,
+  NoDup (map fst methods) -> In (m, hs) methods ->
+  serve_route (register_routes svc var methods []) m rq bv bok = Some (go_serve svc hs rq bv bok).
+Proof. exact routes_config_isolated. Qed.
+Print Assumptions C17_routes_config_isolated.
+
+Theorem C17_route_as_alone : forall svc var var' methods m hs rq bv bok,
+  NoDup (map fst methods) -> In (m, hs) methods ->
+  serve_route (register_routes svc var methods []) m rq bv bok =
+  serve_route (register_routes svc var' [(m, hs)] []) m rq bv bok.
+Proof. exact route_as_alone. Qed.
+Print Assumptions C17_route_as_alone.
+
+(* ---- call sequences on shared client instances: no history dependence -------------------------------- *)
+Theorem C17_history_independent : forall w pre c post,
+  nth_error (run_calls w (pre ++ c :: post)) (List.length pre) = nth_error (run_calls w [c]) 0.
+Proof. exact history_independent. Qed.
+Print Assumptions C17_history_independent.
+
+Theorem C17_own_instance_only : forall w w' c,
+  nth_error w (cc_client c) = nth_error w' (cc_client c) -> snd (do_call w c) = snd (do_call w' c).
+Proof. exact own_instance_only. Qed.
+Print Assumptions C17_own_instance_only.
+
+Theorem C17_plain_call_defaults : forall w c cl,
+  nth_error w (cc_client c) = Some cl -> cc_ct c = [] -> cc_headers c = [] -> stage_sends (cc_stage c) = true ->
+  snd (do_call w c) =
+  Some {| co_sent := Some (hset_all ((s "Content-Type", cl_ct cl) :: cl_defaults cl)); co_ok := stage_ok (cc_stage c) |}.
+Proof. exact plain_call_defaults. Qed.
+Print Assumptions C17_plain_call_defaults.
+
+(* a service with one optional and one required service header and two routes with a required header
+   each: route A is judged by X-A, not by the sibling's X-B *)
+Example C17_routes_nonvacuous :
+  let svc := [ {| h_name := s "X-Trace"; h_type := s "string"; h_required := false; h_format := [] |};
+               {| h_name := s "X-Api-Key"; h_type := s "string"; h_required := true; h_format := [] |} ] in
+  let a := [ {| h_name := s "X-A"; h_type := s "string"; h_required := true; h_format := [] |} ] in
+  let b := [ {| h_name := s "X-B"; h_type := s "string"; h_required := true; h_format := [] |} ] in
+  let table := register_routes svc [] [(s "A", a); (s "B", b)] [] in
+  option_map o_status (serve_route table (s "A") [(s "X-Api-Key", s "k"); (s "X-A", s "1")] true true) = Some 200%Z /\
+  option_map o_violations (serve_route table (s "A") [(s "X-Api-Key", s "k"); (s "X-B", s "1")] true true) = Some [s "X-A"] /\
+  option_map o_status (serve_route table (s "B") [(s "X-Api-Key", s "k"); (s "X-B", s "1")] true true) = Some 200%Z.
+Proof. vm_compute. repeat split; reflexivity. Qed.
+
+(* a call with per-call options that cannot be marshalled, then a plain call on the same instance and
+   on another instance: the plain calls carry exactly Content-Type and their instance's defaults *)
+Example C17_sequence_nonvacuous :
+  let w := [ {| cl_ct := s "application/json"; cl_defaults := [(s "X-Client-Tag", s "c0")] |};
+             {| cl_ct := s "application/x-protobuf"; cl_defaults := [] |} ] in
+  let dirty := {| cc_client := 0; cc_ct := s "application/x-protobuf"; cc_headers := [(s "X-Tenant", s "t1")]; cc_stage := StMarshal |} in
+  let plain k := {| cc_client := k; cc_ct := []; cc_headers := []; cc_stage := StOk |} in
+  run_calls w [dirty; plain 0; plain 1] =
+  [ Some {| co_sent := None; co_ok := false |};
+    Some {| co_sent := Some [(s "content-type", s "application/json"); (s "x-client-tag", s "c0")]; co_ok := true |};
+    Some {| co_sent := Some [(s "content-type", s "application/x-protobuf")]; co_ok := true |} ].
+Proof. vm_compute. reflexivity. Qed.
